@@ -76,6 +76,8 @@ def explore(ctx, rep, cases, label):
         rep.count("concurrent:%d" % len(ex))
         rep.count("propagate:%s" % c.get("propagate", True))
         rep.count("ack:%s" % c.get("ack", "when_saved"))
+        for key in L.sharing_profile(c, ex):
+            rep.count(key)
         for d in ex:
             for what, observed, expected, sig in L.oracle_c12(c, d):
                 rep.fail(what, c, observed=dict(execution=d.i, **observed), expected=expected, sig=sig)
